@@ -179,7 +179,23 @@ def check(pid, tier, seed, t0, finish):
 
 def replay(data, path):
     r = _exec(data["sched"])
+    if not r["ok"]:
+        print("MACHINERY:", r.get("err"))
+        return 2
+    wd = common.workdir("replay-queue")
+    tp = os.path.join(wd, "qone.json")
+    json.dump([r["trace"]], open(tp, "w"), separators=(",", ":"))
+    rc, o = common.tlc("QueueTrace", "QueueTrace.cfg", wd, env={"TRACE_FILE": tp})
+    vs = common.parse_printed_json(o, "VERDICT")
     for i, rec in enumerate(r["trace"]):
         print(i + 1, json.dumps(rec))
-    print("see spec/QueueCtx.tla QMon clause", data["clause"])
-    return 1
+    if rc != 0 or not vs:
+        print("MACHINERY: TLC failed on the replayed queue trace")
+        return 2
+    for x in vs[0]["viol"]:
+        print("failing clause", x)
+    if any(x["c"] == data["clause"] for x in vs[0]["viol"]):
+        print("VIOLATION property=C20 replay=%s" % path)
+        return 1
+    print("not reproduced: clause %s holds on this tree for this schedule (see spec/QueueCtx.tla QMon)" % data["clause"])
+    return 0
